@@ -45,6 +45,12 @@ pub(crate) struct CounterMarker {
 pub(crate) struct OverflowError;
 
 impl CounterMarker {
+    #[cfg(feature = "verif-hooks")]
+    #[inline]
+    pub(crate) fn verif_raw(&self) -> (u16, u16) {
+        (self.counter.get(), self.tracing_counter.get())
+    }
+
     #[inline]
     #[must_use]
     pub(crate) fn new_with_counter_to_one(already_finalized: bool) -> CounterMarker {
